@@ -185,7 +185,10 @@ func oneCase(c *vk.Ctx, i int, r *rand.Rand, p *sem.Prepared, contextual []*open
 						c.Logf("model:\n%s\nstored: %v\ncontextual: %v", p.Ref.DSL(), gen.TupleStrings(p.Stored), gen.TupleStrings(contextual))
 					}
 				}
-				judge(c, p, rc, contextual, ns, mode, streamed, x.t, x.rel, x.subj, x.want, x.anyE, lo)
+				// completeness is judged only when no valid tuple of the case is unevaluable under this context: with
+				// one in play an engine may legitimately fail — or, when streaming, stop — on a branch the
+				// reference does not need (C01's acceptance relation); soundness is judged regardless
+				judge(c, p, rc, contextual, ns, mode, streamed, x.t, x.rel, x.subj, x.want, x.anyE || rc.AnyUnevaluable(), lo)
 			}
 			if qi < 4 && rctx == ctxs[0] && (p.Case.Features["exclusion"] || p.Case.Features["intersection"]) {
 				// the same request while the reads of one or two relations of this store fail
